@@ -122,7 +122,7 @@ func oracle(ops, outs []string) *corr.Violation {
 		case "kill", "shutdown":
 			if len(w) == 4 {
 				untracked[w[1]+":"+w[2]] = true
-				untracked[w[1]+":"+w[3]] = true // ShutDown writes under the caller's id (C23 finding)
+				untracked[w[1]+":"+w[3]] = true // a regression of ShutDown to the caller-id save key (C23, fixed by d221d33) would touch this record too
 			}
 		case "lock":
 			if len(w) != 6 || p == nil || n == nil {
